@@ -126,7 +126,7 @@ def on_cache_insert(model):
 
 WATCH = {}          # id(model) -> containers (list/dict/set attributes of its library objects)
 CLASS_WATCH = []    # class-level containers of library classes (process-wide caches live there)
-FP = {'base': 0, 'flat': [], 'dirty_probes': 0, 'rebased': 0, 'hits': 0}
+FP = {'base': 0, 'flat': [], 'dirty_probes': 0, 'rebased': 0, 'hits': 0, 'slots': None, 'classes': [], 'prev_ids': []}
 
 
 def _class_containers():
@@ -146,7 +146,45 @@ def _class_containers():
     return out
 
 
-BOOT = {'snap': None}
+_MISSING = object()
+BOOT = {'snap': None, 'slots': None, 'class_keys': None}
+import types as _types
+_SKIP_SLOT_TYPES = (_types.FunctionType, type, _types.ModuleType, _types.BuiltinFunctionType, staticmethod, classmethod,
+                    property, _types.MemberDescriptorType, _types.GetSetDescriptorType)
+
+
+def _lib_classes():
+    seen = []
+    have = set()
+    for mname, m in list(sys.modules.items()):
+        if mname.split('.')[0] not in MODULE_ROOTS or m is None:
+            continue
+        for v in list(vars(m).values()):
+            if isinstance(v, type) and _lib_class(v) and v not in have and '.resources' not in (v.__module__ or ''):
+                have.add(v)
+                seen.append(v)
+    return seen
+
+
+def _scalar_slots():
+    """(owner, key) of every class-level and module-level NON-container, non-callable attribute of the library: a
+    rebinding (Cls.counter += 1, a module global reassigned, a 'current' object stored on a class) changes id(value)."""
+    out = []
+    for cls in _lib_classes():
+        for k, a in list(vars(cls).items()):
+            if (k.startswith('__') and k.endswith('__')) or k == '_abc_impl' or callable(a) or isinstance(a, _SKIP_SLOT_TYPES):
+                continue
+            if type(a) in _CONTAINER_TYPES:
+                continue
+            out.append((cls, k))
+    for mname, m in list(sys.modules.items()):
+        if mname.split('.')[0] not in MODULE_ROOTS or m is None or '.resources' in mname:
+            continue
+        for k, a in list(vars(m).items()):
+            if k.startswith('__') or callable(a) or isinstance(a, _SKIP_SLOT_TYPES) or type(a) in _CONTAINER_TYPES:
+                continue
+            out.append((m, k))
+    return out
 
 
 def _module_containers():
@@ -175,7 +213,9 @@ def snapshot_boot_state():
         seen.add(id(c))
         snap.append((c, c.copy()))
     BOOT['snap'] = snap
-    return len(snap)
+    BOOT['slots'] = [(o, k, vars(o).get(k)) for (o, k) in _scalar_slots()]
+    BOOT['class_keys'] = [(c, set(vars(c))) for c in _lib_classes()]
+    return len(snap) + len(BOOT['slots'])
 
 
 def restore_boot_state(skip=()):
@@ -192,6 +232,19 @@ def restore_boot_state(skip=()):
                 c.extend(orig)
             else:
                 c.update(orig)
+    for o, k, v in BOOT['slots'] or ():
+        if vars(o).get(k, _MISSING) is not v:
+            n += 1
+            setattr(o, k, v)
+    for c, keys in BOOT['class_keys'] or ():
+        for k in [k for k in vars(c) if k not in keys and not (k.startswith('__') and k.endswith('__'))]:
+            if k in ('_abc_impl', '__setattr__'):
+                continue
+            n += 1
+            try:
+                delattr(c, k)
+            except (AttributeError, TypeError):
+                pass
     return n
 
 
@@ -205,13 +258,24 @@ def rebase():
     FP['flat'] = flat
     FP['prev'] = list(map(len, flat))
     FP['base'] = sum(FP['prev'])
+    if FP.get('slots') is None:
+        FP['slots'] = [(vars(o), k) for (o, k) in _scalar_slots()]
+        FP['classes'] = [vars(c) for c in _lib_classes()]
+    FP['prev_ids'] = [id(d.get(k)) for d, k in FP['slots']] + [len(d) for d in FP['classes']]
 
 
 def container_dirty():
     """Did any watched shared container change size since the previous probe? (a fresh mutation of process-wide or
     cached-model state: an insertion into a class-level table, a push onto a list parked on a shared parser, ...)"""
     cur = list(map(len, FP['flat']))
-    if cur == FP['prev']:
+    FP['tick'] = FP.get('tick', 0) + 1
+    changed = cur != FP['prev']
+    if not FP['tick'] & 3:          # class / module scalar slots: every fourth probe (they cost 4x the size vector)
+        ids = [id(d.get(k)) for d, k in FP['slots']] + [len(d) for d in FP['classes']]
+        if ids != FP['prev_ids']:
+            FP['prev_ids'] = ids
+            changed = True
+    if not changed:
         return False
     FP['prev'] = cur
     FP['hits'] += 1
